@@ -121,6 +121,7 @@ type VC struct {
 	opReads   map[*FuncInfo][]heapRead
 	revealed  map[string]bool
 	snaps     map[string]string
+	curState  *State
 	oracle    *pathOracle
 	posCount  map[string]int
 	loopOld   map[types.Object]Val
